@@ -180,3 +180,9 @@ TEXT["C15"] = dict(
     note="Partial: group content cannot be parsed back by the crate (no reader for the writer's WmoGroup), liquids/BSP not generated. One genuine defect fix in /repo (MOMT/MLIQ declared sizes, MOGI name offsets); one known finding (D39: doodad model names are not representable in WmoRoot, name offsets are renumbered on write).",
     technique="Lean 4 proof (induction over string tables and run-length lists with arbitrary prefix) + differential correspondence on written files + round-trip oracles",
 )
+
+TEXT["C13"] = dict(
+    text="Machine-checked Lean 4 theorems about the offset relocation scheme M2Model::write uses for preserved key-frame data in all ten animated sections: for every list of blobs in which equal original offsets carry equal bytes, every original offset is mapped and the written data section holds exactly that blob at the mapped offset, whether written for this track or shared with an earlier one (relocate_reads); equal original offsets get equal new offsets (relocate_alias); nothing is written twice (emit_bounded). No bound on the number of tracks or sizes. Tied to the code by comparing the model's relocated offsets with those found in written files for bones with shared and own time lines, and by write->parse->write / conversion content oracles for models (key frames read through the file's (count, offset) pairs) and for skins in both layouts.",
+    note="Partial: only part of the model sections is generated (no textures, cameras, lights, emitters, rotations, anim files); whole-model content preservation is the oracle's part. One defect repaired in /repo (skin submesh record size 40 vs 48); one known finding (D40: tiny old-layout skins are taken for the versioned layout).",
+    technique="Lean 4 proof (invariant over the first-occurrence relocation map and the emitted data, by induction over the blob list) + differential correspondence on relocated offsets + round-trip/conversion oracles",
+)
